@@ -36,11 +36,24 @@ var syncCalls = map[string]bool{"cancel": true, "workerCtxCancel": true, "schedu
 	"Reset": true, "Run": true, "Trigger": true, "SnapshotProgress": true, "GetTotals": true, "Stop": true, "Start": true,
 	"Restart": true, "startFirst": true, "startNext": true, "NewTicker": true, "NewTimer": true, "CollectLifetime": true, "Update": true, "drain": true, "Snapshot": true, "Record": true}
 
+// pkgFuncs: names of the functions and methods declared in the package of the file being
+// processed (given by -pkgfuncs): calls of them are listed too, so that the listing can be
+// flattened through helpers of the package
+var pkgFuncs = map[string]bool{}
+
 const hookImport = "github.com/form3tech-oss/f1/v2/internal/verifh/hook"
+
+// curRecv is the receiver name of the method being processed: it is written "@" in operation
+// names, so that the listing does not depend on it and calls through the receiver can be told
+// from calls through local variables
+var curRecv string
 
 func exprString(e ast.Expr) string {
 	switch v := e.(type) {
 	case *ast.Ident:
+		if curRecv != "" && v.Name == curRecv {
+			return "@"
+		}
 		return v.Name
 	case *ast.SelectorExpr:
 		return exprString(v.X) + "." + v.Sel.Name
@@ -64,13 +77,11 @@ func opsIn(n ast.Node) []string {
 		case *ast.CallExpr:
 			switch f := v.Fun.(type) {
 			case *ast.SelectorExpr:
-				if syncOps[f.Sel.Name] {
-					ops = append(ops, exprString(f.X)+"."+f.Sel.Name)
-				} else if syncCalls[f.Sel.Name] {
+				if syncOps[f.Sel.Name] || syncCalls[f.Sel.Name] || pkgFuncs[f.Sel.Name] {
 					ops = append(ops, exprString(f.X)+"."+f.Sel.Name)
 				}
 			case *ast.Ident:
-				if syncCalls[f.Name] {
+				if syncCalls[f.Name] || pkgFuncs[f.Name] {
 					ops = append(ops, f.Name)
 				}
 			}
@@ -163,7 +174,11 @@ func (in *instr) block(list []ast.Stmt) []ast.Stmt {
 			out = append(out, st)
 			continue
 		case *ast.GoStmt:
-			out = append(out, in.hookStmt("go"))
+			if _, lit := v.Call.Fun.(*ast.FuncLit); lit {
+				out = append(out, in.hookStmt("go"))
+			} else {
+				out = append(out, in.hookStmt("go "+exprString(v.Call.Fun)))
+			}
 			if fl, ok := v.Call.Fun.(*ast.FuncLit); ok {
 				saved := in.fn
 				in.fn = saved + ".go"
@@ -215,7 +230,13 @@ func main() {
 	inPath := flag.String("in", "", "source file")
 	outPath := flag.String("out", "", "instrumented copy (optional)")
 	list := flag.Bool("list", false, "print the sync-op listing")
+	pf := flag.String("pkgfuncs", "", "comma separated names of the functions declared in the package")
 	flag.Parse()
+	for _, n := range strings.Split(*pf, ",") {
+		if n != "" {
+			pkgFuncs[n] = true
+		}
+	}
 	fset := token.NewFileSet()
 	f, err := parser.ParseFile(fset, *inPath, nil, parser.ParseComments)
 	if err != nil {
@@ -229,8 +250,12 @@ func main() {
 			continue
 		}
 		name := fd.Name.Name
+		curRecv = ""
 		if fd.Recv != nil && len(fd.Recv.List) > 0 {
 			name = strings.TrimPrefix(exprString(fd.Recv.List[0].Type), "*") + "." + name
+			if len(fd.Recv.List[0].Names) > 0 {
+				curRecv = fd.Recv.List[0].Names[0].Name
+			}
 		}
 		in.fn, in.counter = name, 0
 		fd.Body.List = in.block(fd.Body.List)
